@@ -162,8 +162,19 @@ def build_binaries(name, sources, units, flags=None, extra_inputs=()):
         return {u[0]: os.path.join(out_dir, u[0]) for u in units}
 
 
-def build_codec(pool='a'):
+# the library's own Makefile builds with -O2 and no sanitizer: undefined behaviour the sanitizers do not
+# report (type punning under strict aliasing, say) shows up as wrong results only there
+REL_FLAGS = ['-std=c++17', '-O2', '-g0']
+
+
+def build_codec(pool='a', flavor='san'):
     header = os.path.join(HARNESS, 'pools', 'pool_%s.h' % pool)
+    if flavor == 'rel':
+        units = [('codec_%s_rel_s%d' % (pool, k),
+                  ['-DPOOL_HEADER="pools/pool_%s.h"' % pool, '-DPOOL_NS=pool_%s' % pool, '-DNSHARD=%d' % NSHARD, '-DSHARD=%d' % k])
+                 for k in range(NSHARD)]
+        bins = build_binaries('codec_%s_rel' % pool, [os.path.join(HARNESS, 'codec_main.cpp')], units, flags=REL_FLAGS, extra_inputs=[header])
+        return [bins[u[0]] for u in units]
     units = [('codec_%s_s%d' % (pool, k),
               ['-DPOOL_HEADER="pools/pool_%s.h"' % pool, '-DPOOL_NS=pool_%s' % pool, '-DNSHARD=%d' % NSHARD, '-DSHARD=%d' % k])
              for k in range(NSHARD)]
@@ -333,6 +344,11 @@ def compare_stream(driver, s):
     bad = 0
     for j in range(n):
         if got[j] != exp[j]:
+            # fault positions: the implementation's k-th call may lie beyond the model's last call when the
+            # implementation splits a transfer into more calls than the model does (the property does not fix
+            # the chunking; status and no-further-calls are checked on the implementation itself)
+            if got[j].startswith('err none') and s.m[s.pairs[j][0]].startswith('fault '):
+                continue
             bad += 1
             if len(dis) < 200:
                 mi = s.pairs[j][0]
